@@ -357,3 +357,47 @@ Theorem C11_writer_refuses_hidden :
   (no_hiding root (rr ++ rev gd) (length rr) n = true <-> nc_lookup_dim root (rr ++ rev gd) n = Some gd).
 Proof. exact no_hiding_exact. Qed.
 Print Assumptions C11_writer_refuses_hidden.
+
+(* ====================================================================== after the ordered-pairs change (8d03027) *)
+
+(* A WHOLE ATTRIBUTE, position by position.  The loop over a parsed attribute succeeds exactly
+   when there is an attribute of the same shape whose every name / value is the result for the
+   one at the same position (names when the rule resolves keys, values when it resolves values,
+   everything else copied) - and then it returns that one: nothing is merged, dropped or
+   reordered, and it fails only if some word fails. *)
+Theorem C11_attr_positional :
+  forall rl f a b, map_attr rl f a = Some b <-> Forall2 (item_rel rl f) a b.
+Proof. exact map_attr_spec. Qed.
+Print Assumptions C11_attr_positional.
+
+(* The flattened attribute (both passes) has exactly as many items and as many words as the
+   original, each word the flattening - resolution by the CF search rules, then renaming - of
+   the word at the same position.  (False of the dict version: see the refuted statement.) *)
+Theorem C11_attr_flattened_positional :
+  forall hash root rl strict rp coords a out,
+  flatten_attr hash root rl strict rp coords a = Some out ->
+  exists b, out = attr_str b /\
+    Forall2 (item_rel rl (flatten_ref hash root rl strict rp coords)) a b /\
+    Forall2 (word_rel rl (flatten_ref hash root rl strict rp coords)) (words a) (words b) /\
+    length b = length a /\ length (words b) = length (words a).
+Proof. exact flatten_attr_positional. Qed.
+Print Assumptions C11_attr_flattened_positional.
+
+(* the code before 8d03027 (dict keyed by name): cell methods naming an axis twice lost a
+   method; one variable named relatively and absolutely became one word *)
+Theorem C11_attr_dict_loses_occurrences_refuted :
+  exists rl1 rl2,
+  lookup_rules "cell_methods" flattening_rules_table = Some rl1 /\
+  lookup_rules "geometry" flattening_rules_table = Some rl2 /\
+  flatten_attr (fun x => x) pos_tree rl1 false [s "k"; s "m"] None
+     [(s "x", Some []); (s "y", Some [s "maximum"]); (s "y", Some []); (s "x", Some [s "mean"])]
+     = Some (s "x: y: maximum y: x: mean") /\
+  flatten_attr_dict (fun x => x) pos_tree rl1 false [s "k"; s "m"] None
+     [(s "x", Some []); (s "y", Some [s "maximum"]); (s "y", Some []); (s "x", Some [s "mean"])]
+     = Some (s "x: mean y:") /\
+  flatten_attr (fun x => x) pos_tree rl2 false [s "k"; s "m"] None [(s "../q1", None); (s "/m/q1", None)]
+     = Some (s "m__q1 m__q1") /\
+  flatten_attr_dict (fun x => x) pos_tree rl2 false [s "k"; s "m"] None [(s "../q1", None); (s "/m/q1", None)]
+     = Some (s "m__q1").
+Proof. exact dict_version_loses_occurrences. Qed.
+Print Assumptions C11_attr_dict_loses_occurrences_refuted.
